@@ -470,6 +470,8 @@ def type_and_value(draw, cfg=None):
     if cfg:
         c.update(cfg)
     d = D(draw, c)
+    if c['choice'] and c['defaults'] and c['tags'] and c['implicit'] and not c.get('root_kinds') and d.pct(c.get('choice_default_pct', 3)):
+        return choice_default_case(d)
     T = draw_type(d)
     v = draw_value(d, T)
     return T, v
@@ -576,3 +578,15 @@ def encoded_values(draw, cfg=None, nmin=1, nmax=1, forms=None):
         encs.append(encode_form(draw, T, v, f))
         fs.append(f)
     return {'T': T, 'vals': vals, 'encs': encs, 'forms': fs}
+
+
+def choice_default_case(d):
+    """A record with a CHOICE-typed DEFAULT whose alternatives can hold the same inner value: which alternative is selected is
+    part of the value (the library's == of CHOICE values looks at the inner value only). -> (T, v)"""
+    k = d.pick(['INTEGER', 'OCTETSTRING', 'UTF8String', 'BOOLEAN'])
+    inner = draw_value(d, ir.mk(k))
+    C = ir.mk('CHOICE', alts=[{'name': 'p', 't': ir.mk(k)}, {'name': 'q', 't': ir.mk(k, tags=[['I', 'C', 0]])},
+                              {'name': 'r', 't': ir.mk(k, tags=[['E', 'C', 1]])}])
+    T = ir.mk(d.pick(['SEQUENCE', 'SET']), comps=[ir.comp('x', ir.mk('INTEGER', tags=[['I', 'C', 5]])), ir.comp('c', C, 'def', ('p', inner))])
+    v = {'x': d.int(-3, 300), 'c': (d.pick(['p', 'q', 'r']), inner if d.pct(70) else draw_value(d, ir.mk(k)))}
+    return T, v
